@@ -87,8 +87,9 @@ PLANS = {
             {"name": "pred", "module": "GenPath", "constants": {"Family": '"pred"', "MaxSteps": "0"}},
             {"name": "err", "module": "GenPath", "constants": {"Family": '"err"', "MaxSteps": "0"}},
             {"name": "pre", "module": "GenPath", "constants": {"Family": '"pre"', "MaxSteps": "0"}},
+            {"name": "viatext", "module": "GenPath", "constants": {"Family": '"viatext"', "MaxSteps": "0"}},
         ],
-        "bounds": "21 documents (scalar roots, empty containers, arrays of objects, container-valued members, number encodings) x navigation step sequences of <= N steps over 26 steps (wildcards, three name spellings, 19 index lists incl. last+-k, ranges, negative and i32-extreme values) and 170 filter steps (6 operators x operand paths x 10 literals, literal-left, path-vs-path, root-relative, &&/|| nesting, exists, nested filters) in 4 positions, 40 stand-alone predicates, arithmetic expressions and 64-bit-overflowing index forms",
+        "bounds": "the same paths also handed over as text rendered by the specification (parser + evaluator); 21 documents (scalar roots, empty containers, arrays of objects, container-valued members, number encodings) x navigation step sequences of <= N steps over 26 steps (wildcards, three name spellings, 19 index lists incl. last+-k, ranges, negative and i32-extreme values) and 170 filter steps (6 operators x operand paths x 10 literals, literal-left, path-vs-path, root-relative, &&/|| nesting, exists, nested filters) in 4 positions, 40 stand-alone predicates, arithmetic expressions and 64-bit-overflowing index forms",
     },
     "C09": {
         "drive": [{"kind": "syntax", "count": {"quick": 6000, "thorough": 80000}, "ops": ["jp_parse"]}],
